@@ -231,6 +231,19 @@ def glycan_clauses(ctx, st, pt, rng):
             ctx.violation('unambiguous-glycan-does-not-parse-to-its-counts', {'glycan': counts, 'text': text,
                                                                               'parsed': p,
                                                                               'maximal_munch_reading': rg.greedy(text)})
+    if unamb and sep == '' and rng.random() < 0.3:
+        # a name written a second time adds to its count (as a repeated element does in a chemical formula)
+        name0 = rng.choice(list(counts))
+        extra = rng.randint(1, 4)
+        text2 = text + name0 + str(extra)
+        want2 = [(k, str(v)) for k, v in counts.items()] + [(name0, str(extra))]
+        if rg.segmentations(text2, 2) == [want2]:
+            exp2 = dict(counts)
+            exp2[name0] = exp2[name0] + extra
+            p2 = observe(st, pt, 'parse_glycan_formula', text2, '')
+            ctx.decided()
+            if not p2 or p2[0] != 'ok' or not close(p2[1], exp2):
+                ctx.violation('repeated-glycan-name-does-not-add-up', {'text': text2, 'expected': exp2, 'parsed': p2})
     # composition and mass from the dictionary (no tokenizer involved)
     gc = observe(st, pt, 'glycan_comp', dict(counts))
     ctx.decided()
